@@ -35,6 +35,40 @@ def cast_label(call):
     return None
 
 
+def rule_stdout(ctx, rep, rid="R-C12-stdout"):
+    """While the language server runs over stdio, standard output carries the protocol, and lsp-server's writer thread holds the stdout
+    lock for its whole life: a `println!` from the message loop blocks for ever (and would corrupt the stream if it did not).  Nothing
+    that runs in server mode prints to stdout: no function reachable from the server's entry points, and nothing in the logger module
+    (its format closure runs on every log record, in every mode)."""
+    r = rep.rule(rid, "nothing that runs in language-server mode writes to standard output (no print!/println! reachable from the message loop or in the logger)",
+                 floor=20, floor_what="functions examined")
+    entries = []
+    for nm in (LSP + "::run", "ironplcc::lsp::start_with_connection", "ironplcc::lsp::start"):
+        entries += ctx.prog.get(nm) or []
+    reach = ctx.prog.reachable_from(entries)
+    ids = set(reach)
+    for b in ctx.prog.bodies.values():
+        if b.f["crate"] == "ironplcc" and "logger" in b.f["file"] and "::test" not in norm(b.id):
+            ids.add(b.id)
+    n = 0
+    bad = 0
+    for bid in sorted(ids):
+        b = ctx.prog.body(bid)
+        if b is None or b.f["crate"] not in ("ironplcc", "ironplc_parser", "ironplc_analyzer", "ironplc_dsl", "ironplc_plc2plc", "ironplc_problems"):
+            continue
+        n += 1
+        k = 0
+        for c in sorted(b.calls(), key=lambda c: (c.loc[0], c.loc[1])):
+            if (c.callee or "") in ("std::io::stdio::_print", "std::io::stdio::stdout", "std::io::stdout"):
+                k += 1
+                bad += 1
+                why = "in the logger (runs on every log record)" if "logger" in b.f["file"] else "reachable from the language server's message loop"
+                r.finding("%s|stdout#%d" % (norm(b.id).replace("ironplcc::", ""), k), loc_str(b.f, c.loc), "writes to standard output, %s: over stdio the writer thread holds the stdout lock, "
+                          "so the call blocks for ever and no further request is answered" % why)
+    r.count_override = max(n, 1)
+    r.note("%d functions (reachable from the server entry points, plus the logger module) examined" % n)
+
+
 def rule_dispatch(ctx, rep, rid="R-C12-dispatch"):
     """Every request must reach the function that answers it.  In LspServer::run's loop over the receiver: no path from taking a
     message to the next iteration avoids the match on the message's kind, and on the Request arm every path to the next iteration
@@ -375,6 +409,7 @@ def run(ctx, rep):
     rule_run(ctx, rep)
     rule_reply(ctx, rep)
     rule_dispatch(ctx, rep)
+    rule_stdout(ctx, rep)
     rule_quiet(ctx, rep)
     rule_exit(ctx, rep)
     # the invariant the map_label slice triage relies on (offsets belong to the current text), re-verified here
